@@ -23,7 +23,8 @@ def gen_inputs(ctx):
             out.append(("Paranoia", dict(src, net=net, account=acct, start=B(st.to_bytes(5, 'big')), end=B((st + n).to_bytes(5, 'big'))), ("paranoia", net, n, "seed" in src,
                                                                                                 core.untext(src["password"]) != "")))
     # the same requests through the command line (--paranoia, to stdout and to --file), incl. empty intervals
-    for src in sources[:4] + [s_ for s_ in sources if "seed" in s_ and len(s_["seed"]) == 64][:2]:
+    padded = [{"mnemonic": T(MNEMONICS[0]), "password": T(" padded passphrase \t")}, {"mnemonic": T(MNEMONICS[1]), "password": T("trailing blank ")}]
+    for src in sources[:4] + padded + [s_ for s_ in sources if "seed" in s_ and len(s_["seed"]) == 64][:2]:
         for via in ("cli", "cli-file"):
             for st, n in ((0, 2), (4, 0), (7, 1)) if not q else ((rng.choice([0, 7]), rng.choice([1, 2])), (4, 0)):
                 net = rng.choice(["main", "test"])
